@@ -146,13 +146,26 @@ MODE_ENV = {
 }
 
 
-def run_impl(harness, cases, mode="jit", nproc=None, stall_s=90, fn="impl"):
+def run_impl(harness, cases, mode="jit", nproc=None, stall_s=90, fn="impl", _retry=True):
     """Run `harness.<fn>(case)` for every case in worker subprocesses started in `mode`.
     A worker that makes no progress for `stall_s` seconds is killed and its current case reported as {'err':'hang'}.
+    A small number (≤ 4) of reported hangs is only believed after the cases hung a second time in a fresh worker (on a
+    loaded machine the first case of a worker can exceed the limit while numba compiles).
     Returns the list of results in case order."""
     n = len(cases)
     if n == 0:
         return []
+    if _retry:
+        res = run_impl(harness, cases, mode, nproc, stall_s, fn, _retry=False)
+        hung = [i for i, r in enumerate(res) if isinstance(r, dict) and r.get("err") in ("hang",) or
+                isinstance(r, dict) and str(r.get("err", "")).startswith("other:worker-exit")]
+        if hung and len(hung) <= 4:
+            # few enough to be an artefact of load (many hangs are a property of the code): once more, in one fresh worker
+            log(f"re-running {len(hung)} case(s) reported as hang/worker-exit in a fresh worker")
+            again = run_impl(harness, [cases[i] for i in hung], mode, 1, max(stall_s, 120), fn, _retry=False)
+            for i, r in zip(hung, again):
+                res[i] = r
+        return res
     nproc = max(1, min(nproc or int(os.environ.get("VERIF_NPROC", "0") or 0) or os.cpu_count() or 4, (n + 7) // 8))
     shards = [list(range(k, n, nproc)) for k in range(nproc)]
     results = [None] * n
